@@ -57,6 +57,12 @@ def smap_rule(chk: Check, ctx: Any, rule: str) -> None:
                      {1: mk(None, "m", 7, 8, (None, 1, 2), 0, {"$a": 1}), 4: mk("lib/x.exps", "n", 9, 0, None, None, {}), 5: mk("lib/x.exps", "n", 10, 0, ("lib/x.exps", 2, 2), 7, {"$b": "s"})},
                      [])
         maps.append(("hand-made-from-offset-0", hand))
+        # maps in which one of the tables is empty: only macro entries (routines that consist of macro calls), only marks
+        c3 = P.compile_exps("macro say($t) {\n    s($t);\n    t2(Position<'q', 2, 3>);\n}\nmacro twice($u) { ~say($u); ~say('again'); }\n"
+                            "def 0 { ~say('first'); ~twice('hero'); }\ndef 1 { ~say('last'); }\n")
+        maps.append(("only-macro-entries", c3.attrs["source_map"]))
+        only_m = I.new(smc, {}, [], {3: mk(None, "m", 1, 2, (None, 5, 6), 5, {"$a": 1}), 4: mk(None, "m", 2, 2, None, 5, {"$a": 1}), 7: mk("x.exps", "k", 3, 0, (None, 6, 1), 9, {})}, [])
+        maps.append(("hand-made-only-macro-entries", only_m))
     except (PyExc, Unsupported, AnalysisError) as e:
         chk.unknown(rule, "smap:inputs", anchor, f"the sample maps could not be produced: {e}")
         return
